@@ -389,6 +389,9 @@ class PlainDevice:
 
     def execute(self, cmd, en_raw_sense=False):
         self.calls.append(cmd)
+        if self.fail_with is not None:
+            e, self.fail_with = self.fail_with, None
+            raise e
         din = cmd.datain
         WORLD.ev("plain.cmd", cdb=cmd.cdb, outlen=len(cmd.dataout) if cmd.dataout is not None else None, inlen=len(din) if din is not None else None)
         WORLD.deliveries.append({"transport": "plain", "status": 0, "cdb": bytes(cmd.cdb), "cmd": cmd,
@@ -399,11 +402,16 @@ class PlainDevice:
             n = min(len(datain), len(din))
             memoryview(din)[:n] = datain[:n]
 
+    closes = 0
+    close_returns = None      # what this application-defined device's close() returns (a status, a flag ...): nobody's business
+    fail_with = None          # an exception instance the next execute raises (the device's own error type)
+
     def open(self):
         pass
 
     def close(self):
-        pass
+        self.closes += 1
+        return self.close_returns
 
 
 def nonce_bytes(nonce, n):
